@@ -1,0 +1,8 @@
+//go:build !verif
+
+package event
+
+// simHook is the (empty) simulator seam of a TypeMux in ordinary builds.
+type simHook struct{}
+
+func (mux *TypeMux) simPost(ev interface{}) bool { return false }
